@@ -722,7 +722,12 @@ def check_batch_write(ctx: Ctx, inp, verbose=False):
                 continue
             obj_out = None
             if kind == "tensor" and rd.get("inplace") and srcv.dtype not in (torch.complex64, torch.complex128):
-                obj_out = make_tensor({"shape": list(srcv.shape), "dtype": str(srcv.dtype)[6:], "layout": rd["inplace"], "dseed": 99})
+                odt = str(srcv.dtype)[6:]
+                if rd.get("wrong_dtype"):
+                    # a destination of the right shape but another dtype cannot be loaded in place: the saved dtype must
+                    # come back, for a chunked entry exactly as for a plain one
+                    odt = "int32" if odt != "int32" else "float32"
+                obj_out = make_tensor({"shape": list(srcv.shape), "dtype": odt, "layout": rd["inplace"], "dseed": 99})
             r, f = prepare_read(e, obj_out, buffer_size_limit_bytes=limit)
             rrs_all += r
             futs.append((kind, srcv, f))
@@ -971,7 +976,8 @@ def _gen_plan_random(ctx: Ctx, adversarial=False):
            "order": rng.choice([None, rng.randrange(1 << 20)]),
            "read": {"limit": rng.choice([None, None, 1, 2, 3, 5, 8, 16, 1000]), "merge": rng.random() < 0.6,
                     "rorder": rng.choice([None, rng.randrange(1 << 20)]),
-                    "inplace": rng.choice([None, None, "contig", "transpose", "stride2", "offset", "lastslice"])}}
+                    "inplace": rng.choice([None, None, "contig", "transpose", "stride2", "offset", "lastslice"]),
+                    "wrong_dtype": rng.random() < 0.25}}
     if adversarial:
         inp["malformed"] = True
         k = rng.randrange(3)
